@@ -21,7 +21,35 @@ pub fn pick_det_kind(rng: &mut Prng) -> Kind {
 }
 
 pub fn gen_seed_bytes(rng: &mut Prng, n: usize) -> Vec<u8> {
-    match rng.below(15) {
+    match rng.below(17) {
+        15 | 16 => {
+            // periodic byte lanes: e.g. the low half of every 64-bit word is zero, only byte k of each
+            // 32-bit word is non-zero, every other byte is zero (a zero test that looks at part of
+            // each word collides with such seeds)
+            let period = *rng.pick(&[2usize, 4, 8, 8, 16]);
+            let mut lanes: Vec<bool> = match rng.below(3) {
+                0 => (0..period).map(|i| i >= period / 2).collect(),
+                1 => (0..period).map(|i| i < period / 2).collect(),
+                _ => (0..period).map(|_| rng.chance(1, 3)).collect(),
+            };
+            if !lanes.iter().any(|x| *x) {
+                let i = rng.below(period as u64) as usize;
+                lanes[i] = true;
+            }
+            let sparse = rng.chance(1, 2);
+            let mut v = rng.bytes(n);
+            let keep_word = rng.below((n / period.min(n)) as u64) as usize;
+            for (i, b) in v.iter_mut().enumerate() {
+                if !lanes[i % period] || (sparse && i / period != keep_word) {
+                    *b = 0;
+                }
+            }
+            if v.iter().all(|b| *b == 0) {
+                let i = (0..n).find(|i| lanes[i % period]).unwrap_or(0);
+                v[i] = 1;
+            }
+            v
+        }
         13 | 14 => {
             // all words cancel: their wrapping SUM is zero, or their XOR is zero, at 32- or 64-bit width
             // (a checksum-style "is it all zero?" test collides with such seeds)
